@@ -56,6 +56,10 @@ def check_read_only(repo: Repo, rep: Report):
     cg = CallGraph(repo)
     root = repo.func(f"{PG}.identify_pytorch_file_format")
     reached, parent, sites = cg.reachable([(root, None)])
+    # Python pitfalls that make the answer depend on member ORDER rather than on which members exist
+    from ..pitfalls import check_pitfalls
+
+    check_pitfalls(repo, rep, "C17.table-floor", [f for f in reached.values() if f.module.name == PG])
     unaudited = []
     n_sites = 0
     for s in sites:
@@ -104,7 +108,7 @@ def check_read_only(repo: Repo, rep: Report):
                 if name == "add" and isinstance(s.node, ast.Call) and isinstance(s.node.func, ast.Attribute) and (dotted(s.node.func.value) or "").endswith("entries"):
                     continue
                 rep.bad("C17.read-only", f.qualname, f"writes:.{name}", f"`{src(s.node)}` is reachable from identify_pytorch_file_format: identification is not read-only", f.file, s.line, path=cg.path_to(parent, f.qualname))
-            elif v == "unaudited" and name not in ("namelist", "getnames", "next", "extractfile", "hasobject", "issubset", "get", "decode", "groups", "opcodes", "infolist", "getmembers"):
+            elif v == "unaudited" and name not in ("namelist", "getnames", "next", "extractfile", "hasobject", "issubset", "get", "decode", "groups", "opcodes", "infolist", "getmembers", "is_dir", "is_file", "isdir", "isfile", "isreg", "getinfo", "testzip"):
                 unaudited.append(f"{qm} at {f.file}:{s.line}")
     if unaudited:
         raise AnalysisError("unaudited operation(s) on the identification path: " + "; ".join(sorted(set(unaudited))[:10]))
